@@ -1,6 +1,7 @@
 import Tibc.Lemmas.ClassPath
 import Tibc.Lemmas.NftSteps
 import Tibc.App.Transfer
+import Tibc.Lemmas.RelayEditWitness
 /-
   C06 — Failed transfers are refunded exactly; a round trip restores the original.
   PROPERTY THEOREMS ONLY.  (Path algebra for all strings; refund exactness per step.)
@@ -317,5 +318,19 @@ theorem nft_round_trip_restores (A B : Apps) (a b : Str) (cls id : Str) (u v u2 
     · rfl
 
 end roundtrip
+
+/-- **"…and no token of it exists on the receiving side" is FALSE of the code** when the error
+    acknowledgement comes from a chain the packet never named (known finding F-C06-relayedit; root
+    cause C13). In both histories the last step processes an error acknowledgement and refunds the
+    sender exactly (`nft_refund_exact`, `mt_refund_exact`), while the token delivered before is
+    still on the destination chain. -/
+theorem refund_although_delivered :
+    (RelayEdit.results RelayEdit.nftHistory).getLast? = some Res.ok ∧
+    (RelayEdit.nftWorld "A").apps.nft.owner ("dog".toList, "rex".toList) = some "alice" ∧
+    (RelayEdit.nftWorld "C").apps.nft.owner (ibcClass id "nft/A/C/dog".toList, "rex".toList) = some "carol" ∧
+    (RelayEdit.results RelayEdit.mtHistory).getLast? = some Res.ok ∧
+    (RelayEdit.mtWorld "A").apps.mt.bal ("gold".toList, "bar".toList, "alice") = 9 ∧
+    (RelayEdit.mtWorld "C").apps.mt.bal (ibcClass id "mt/A/C/gold".toList, "bar".toList, "carol") = 4 := by
+  decide
 
 end Tibc.C06
